@@ -13,6 +13,9 @@ CONSTANTS
   LoIds = {}
   Unhashed = FALSE
   Perms = FALSE
+  RIdxs = {2}
+  Faults = FALSE
+  OldCs = {2}
 CONSTRAINT OnlyFirstStep
 PROPERTIES EmitProp
 CHECK_DEADLOCK FALSE
